@@ -7,6 +7,7 @@ from .tokens import RiscvToken, RiscvcToken
 from .rvc_relocations import BcImm11Relocation, BcImm8Relocation
 from .rvc_relocations import CBImm11Relocation, CBlImm11Relocation
 from ..generic_instructions import ArtificialInstruction
+from ...utils.bitfun import sign_extend
 from .instructions import Andr, Orr, Xorr, Subr, Addi, Slli, Srli
 from .instructions import Lw, Sw, Blt, Bgt, Bge, Beq, Bne, Ble, Blr
 from .instructions import Bgtu, Bltu, Bgeu, Bleu
@@ -634,7 +635,7 @@ def pattern_consti32_2(context, tree):
     if (c0 & 0x800) != 0:
         c0 += 0x1000
     context.emit(CLui(d, c0 >> 12))
-    context.emit(Addi(d, d, c0 & 0xFFF))
+    context.emit(Addi(d, d, sign_extend(c0, 12)))
     return d
 
 
